@@ -181,6 +181,12 @@ func TestC12(t *testing.T) {
 				r.Discard("generated workflow not clean")
 				return
 			}
+			seqIndex := map[*ye.Node]int{}
+			w.Root.Walk(func(n, p *ye.Node, idx int, isKey bool) {
+				if p != nil && p.Kind == ye.Seq {
+					seqIndex[n] = idx
+				}
+			})
 			for _, lf := range scalarLeaves(w.Root) {
 				info := wf.LeafOf(lf)
 				if !info.Template || info.Exempt != "" {
@@ -189,6 +195,9 @@ func TestC12(t *testing.T) {
 				cls := info.Path
 				if info.Config != "" {
 					cls += "[" + info.Config + "]"
+				}
+				if i, ok := seqIndex[lf]; ok && i > 0 {
+					cls += fmt.Sprintf("#%d", min(i, 3)) // later elements of a sequence are positions of their own
 				}
 				if hx.Thorough() {
 					// thorough: also vary the surrounding workflow: re-enumerate a path up to 4 times
